@@ -136,9 +136,10 @@ def run_case(ctx, k, rng):
               has_negative_birth_plus_death=negsum)
     # representation: integer-valued diagrams as integer arrays (sums b+d of either parity) must give the same value
     if rng.random() < 0.25 and len(A) and len(B):
-        Ai = np.round(A / sc * 7).astype(np.int64); Bi = np.round(B / sc * 7).astype(np.int64)
+        Ai = np.round(A / sc * float(rng.choice([7, 60]))).astype(np.int64); Bi = np.round(B / sc * float(rng.choice([7, 60]))).astype(np.int64)
         Ai[:, 1] = np.maximum(Ai[:, 1], Ai[:, 0]); Bi[:, 1] = np.maximum(Bi[:, 1], Bi[:, 0])
-        ctx.set_payload({"PD1": Ai, "PD2": Bi, "M": M, "dtype": "int64"})
+        (Ai, da), (Bi, db) = vforms.as_int_dtype(rng, Ai), vforms.as_int_dtype(rng, Bi)
+        ctx.set_payload({"PD1": Ai, "PD2": Bi, "M": M, "dtype": [da, db]})
         try:
             vi = float(f(Ai, Bi)); vf = float(f(Ai.astype(float), Bi.astype(float)))
             refi = ref_sw(Ai, Bi, M)
@@ -149,6 +150,18 @@ def run_case(ctx, k, rng):
             ctx.check("integer arrays == float arrays of the same values", abs(mixed - refi) <= ti, mixed_form=mixed, ref=refi)
         except Exception as e:
             ctx.exception("integer arrays == float arrays of the same values", e)
+        ctx.set_payload({"PD1": A, "PD2": B, "M": M})
+    if rng.random() < 0.06:
+        ia, fa_, da = vforms.near_limit_int_diagram(rng, int(rng.integers(1, 8)), positive_length=False)
+        ib, fb_, db = vforms.near_limit_int_diagram(rng, int(rng.integers(1, 8)), dtypes=(np.dtype(da).type,), positive_length=False)
+        ctx.set_payload({"PD1": ia, "PD2": ib, "M": M, "dtype": da})
+        try:
+            vi, vf, rf = float(f(ia, ib)), float(f(fa_, fb_)), ref_sw(fa_, fb_, M)
+            tn = 1e-6 * scale_of(fa_, fb_) * (len(fa_) + len(fb_) + 1)
+            ctx.check("narrow integer dtype near its limits == float64 of the same values", abs(vi - rf) <= tn and abs(vf - rf) <= tn,
+                      int_form=vi, float_form=vf, ref=rf, dtype=da)
+        except Exception as e:
+            ctx.exception("narrow integer dtype near its limits == float64 of the same values", e)
         ctx.set_payload({"PD1": A, "PD2": B, "M": M})
     try:
         sub = int(rng.integers(0, 6))
